@@ -50,6 +50,10 @@ class C19(Prop):
                 yield Case('transform', ('fieldmap', (('kk', ('fieldconv', 'k', ('fn', 3))), ('aa', ('field', 'a'))), pol, ev, t),
                            meta)
                 yield Case('transform', ('rowmap', 1, ('k', 'n'), pol, t), meta)
+                # rows longer (and shorter) than the header: cells outside the converted field are the same under every policy
+                tl = (t[0],) + tuple(r + ('extra', 9) if i % 2 == 0 else (r[:2] if i % 3 == 1 else r) for i, r in enumerate(t[1:]))
+                yield Case('transform', ('convert', (('k', ('fn', 3)),), pol, ev, None, tl), meta)
+                yield Case('transform', ('convert', (('k', ('fn', 3)), ('a', ('fn', 0))), pol, ev, None, tl), meta)
                 # failing cells that are tuples (empty, singleton, longer)
                 tt = (t[0],) + tuple((rng.choice([(), (1,), (1, 'x'), (None, 2, 3)]),) + r[1:] if r[0] in (2, 'x') else r
                                      for r in t[1:])
@@ -97,6 +101,14 @@ class C19(Prop):
             if impl_obs[0] == 'li' and any(tuple(codec.canon(x) for x in r) != o[1]
                                            for r, o in zip(t[1:], impl_obs[1][1:]) if r[0] in (2, 'x')):
                 return False                        # rows rejected by the guard pass through unchanged
+        if nm == 'convert':
+            # every delivered row keeps its length and every cell outside the converted fields
+            touched = {('k', 'a', 'v').index(k) for k, _c in case.arg[1]}
+            rows_out = impl_obs[1][1:] if impl_obs[0] == 'li' else (impl_obs[1][1][1][1:] if impl_obs[0] == 'tu' and
+                                                                   impl_obs[1][0] == codec.t_str('!partial') else [])
+            for r, o in zip(t[1:], rows_out):
+                if len(o[1]) != len(r) or any(j not in touched and o[1][j] != codec.canon(x) for j, x in enumerate(r)):
+                    return False
         if pol is False or pol == 'inline':
             if impl_obs[0] != 'li':
                 return False                      # nothing may be raised
@@ -122,6 +134,8 @@ class C19(Prop):
     def valid(self, case):
         try:
             t = case.arg[-1]
+            if case.arg[0] == 'convert':
+                return len(t) >= 1 and tuple(t[0]) == ('k', 'a', 'v') and all(2 <= len(r) <= 5 for r in t[1:])
             return len(t) >= 1 and tuple(t[0]) == ('k', 'a', 'v') and all(len(r) == 3 for r in t[1:])
         except Exception:
             return False
